@@ -1037,3 +1037,19 @@ Example C03_special_path_need_SP :
      | _ => false
      end = true.
 Proof. vm_compute. repeat split. Qed.
+
+(* non-vacuity of C03_special_path_step: on "http://h/a" (parsed with the example host functions) set_path("x"), a
+   path_segments_mut session pop / pop and set_host(Some "g") are steps outside excl03 with arguments in op_args_ok; the
+   results "http://h/x", "http://h/", "http://g/a" keep '/' at path_start *)
+Example C03_special_path_step_inhabited :
+  match parse_url true ex_hp ex_hp ex_hd2 None None (B "http://h/a") with
+  | POk u =>
+      let ok o := match apply_op true ex_hp ex_hp ex_hd2 u o with
+                  | Some u' => negb (excl03 u o u') && C05_HostText.spb u'
+                               && match nnth (ser u') (path_start u') with Some 47 => true | _ => false end
+                  | None => false
+                  end in
+      ok (OSetPath (B "x")) && ok (OPathSegments [PPop; PPop]) && ok (OSetHost (Some (B "g")))
+  | _ => false
+  end = true.
+Proof. vm_compute. reflexivity. Qed.
